@@ -15,4 +15,6 @@ def run(rep, fb, tier):
     methodrules.rule_indexed_builder(rep, fb)
     forward.rule_same_name(rep, fb, select=lambda f: (f["cls"] or "").endswith("Builder") or f["cls"] == "GrowableBuffer", floor=100, name="FORWARD.same-name:builders")
     safety.rule_extern_c_nothrow(rep, fb)
+    from ..rules import lints
+    lints.rule_raw_store(rep, fb)
     rep.units = fb.units
